@@ -167,6 +167,23 @@ pub fn apply(d: &mut Vec<u8>, m: &Mutation) {
                 d[8..12].copy_from_slice(&v.to_le_bytes());
             }
         }
+        Mutation::SwapFields(..) | Mutation::RepeatField(..) => {
+            let framed = d.len() >= 12 && &d[..8] == r::MAGIC;
+            let payload = if framed { &d[12..] } else { &d[..] };
+            if let Ok((mut msg, _)) = r::decode(payload) {
+                let n = msg.fields.len();
+                match m {
+                    Mutation::SwapFields(i, j) if n >= 2 => msg.fields.swap(*i as usize % n, *j as usize % n),
+                    Mutation::RepeatField(i) if n >= 1 => {
+                        let f = msg.fields[*i as usize % n].clone();
+                        msg.fields.insert(*i as usize % n, f)
+                    }
+                    _ => {}
+                }
+                let enc = msg.encode();
+                *d = if framed { r::frame(&enc) } else { enc };
+            }
+        }
         Mutation::Scribble { pos, len, seed } => {
             if !d.is_empty() {
                 let pos = *pos as usize % d.len();
